@@ -3608,6 +3608,19 @@ M('C09', 'reader-other-zone', PK, "    def created_int(self, val):\n        self
 M('C09', 'reader-seconds-plus-offset', SS, "    def created_int(self, val):\n        self.created = datetime.fromtimestamp(val, timezone.utc)", "    def created_int(self, val):\n        self.created = datetime.fromtimestamp(val + time.timezone, timezone.utc)", 'C09.5')
 T('C09', 'twin-reader-aware-utc-astimezone', SS, "    def created_int(self, val):\n        self.created = datetime.fromtimestamp(val, timezone.utc)", "    def created_int(self, val):\n        self.created = datetime.fromtimestamp(int(val), tz=timezone.utc).astimezone(timezone.utc)")
 
+# --- C09 third round: state kept on the int-subclass instance created in MPI.__new__
+_MPI_RET = "        return super(MPI, cls).__new__(cls, mpi)\n\n    def byte_length(self):\n        return ((self.bit_length() + 7) // 8)\n"
+M('C09', 'mpi-remembers-wire-width', PT, _MPI_RET,
+  "        self = super(MPI, cls).__new__(cls, mpi)\n        self._blen = fl if isinstance(num, bytearray) else None\n        return self\n\n    def byte_length(self):\n        if self._blen is not None:\n            return self._blen\n        return ((self.bit_length() + 7) // 8)\n", 'C09.3')
+M('C09', 'mpi-remembers-wire-bits', PT, "        return super(MPI, cls).__new__(cls, mpi)\n",
+  "        self = super(MPI, cls).__new__(cls, mpi)\n        self.__dict__['_bits'] = MPIs.bytes_to_int(b'\\x00') if not isinstance(num, bytearray) else 8 * fl\n        return self\n", 'C09.3',
+  more=[(PT, "        return MPIs.int_to_bytes(self.bit_length(), 2) + MPIs.int_to_bytes(self, self.byte_length())", "        return MPIs.int_to_bytes(self._bits or self.bit_length(), 2) + MPIs.int_to_bytes(self, self.byte_length())")])
+T('C09', 'twin-mpi-unused-attribute', PT, "        return super(MPI, cls).__new__(cls, mpi)\n",
+  "        self = super(MPI, cls).__new__(cls, mpi)\n        self._from_wire = isinstance(num, bytearray)\n        return self\n")
+T('C09', 'twin-mpi-bytelen-cached', PT, "    def byte_length(self):\n        return ((self.bit_length() + 7) // 8)\n",
+  "    def byte_length(self):\n        cached = getattr(self, '_nbytes', None)\n        if cached is None:\n            cached = (self.bit_length() + 7) // 8\n            setattr(self, '_nbytes', cached)\n        return cached\n")
+M('C09', 'malformed-length-fstring-special', TY, "                if 192 > fo:\n                    return (self.bytes_to_int(a[offset:offset + 1]), 1, False)", "                if 192 > fo:\n                    return (int(f'{fo:03d}'[-2:]) if fo > 99 else fo, 1, False)", 'C09.1')
+
 # =============================================================================================== C20
 M('C20', 'ops-loop-forward', PGP, "            for sig in reversed(self._signatures):\n                ops = sig.make_onepass()", "            for sig in self._signatures:\n                ops = sig.make_onepass()", 'C20.2')
 M('C20', 'trailing-sigs-reversed', PGP, "                yield self._mdc\n\n            for sig in self._signatures:\n                yield sig", "                yield self._mdc\n\n            for sig in reversed(self._signatures):\n                yield sig", 'C20.2')
